@@ -120,11 +120,12 @@ CHECKS = {
         "within the maximum, no field of the scorer is updated; OmenScorer.parse returns the level sum or -1. Frame (AST): scoring never updates the scorer or its multi-word detector. "
         "Bounded: every non-zero score is matched by the real guesser emitting that string from a pre-terminal of that probability. Known finding F15.",
    note="that the multiplied segments form a pre-terminal the guesser emits (same tables, same segmentation) rests on the stated bound; detectors trusted as in C05"),
- 'C20': dict(level='other', technique=TECH + " with the regex engine abstracted to uninterpreted functions; file-system frame decided on the AST; real CLI as bounded stand-in",
-   text="edit_length, edit_terminal_set, check_regex (all grammars and parameters): the result is exactly the concatenation, in order, of the lines passing the declarative filter "
+ 'C20': dict(level='other', technique=TECH + " with the regex engine abstracted to uninterpreted functions; edit_rules() over a ghost file system; file-system and shared-state frames decided on the AST; real CLI as bounded stand-in",
+   text="edit_rules() (all configurations): the one file written is <rules_dir>/<copy or rule>/Grammar/grammar.txt and it receives exactly regex(terminal_set(length(text read from that file))), each filter applied iff its option is set, "
+        "with the context lengths of that same ruleset; a copy is made iff --copy, from the rule to the copy, before anything is read. edit_length, edit_terminal_set, check_regex (all grammars and parameters): the result is exactly the concatenation, in order, of the lines passing the declarative filter "
         "(A/D/O/K count their number, Y counts 4, X between the given context lengths; nothing generated = kept; shortest >= min and longest <= max, 0 unbounded; every label letter in the set; every regex matches the structure). All paths: the only statements of edit_rules.py that change the file system are open(<rules_dir>/<rule>/Grammar/grammar.txt, 'w') and shutil.copytree(source, copy). "
         "Bounded: grammar.txt after editing == original minus the structures failing the requested filters, survivors unchanged and in order, other files byte-identical, --copy leaves the source "
         "untouched, guesses of the edited ruleset within the length bounds (context-sensitive segments: defect F12, repaired).",
-   note="re.findall/re.search/split/strip/int() uninterpreted (A-TOK validated only by the stand-in); edit_rules() orchestration not under a functional contract"),
+   note="re.findall/re.search/split/strip/int() uninterpreted (A-TOK validated only by the stand-in); _context_lengths and the effect of shutil.copytree are trusted (A-COPYTREE); A-SPLIT-CONCAT is a precondition of edit_rules(); exceptional exits unconstrained"),
 }
 NOT_APPLICABLE = {}
